@@ -150,11 +150,136 @@ class CallGraph:
         return None
 
     # ----------------------------------------------------------------------------------- resolution
+    # ----------------------------------------------------------------------------------- dispatch tables
+    def _single_assignment(self, func, name):
+        """The value expression of the only assignment to ``name`` in ``func`` or an enclosing function, else None."""
+        scope = func
+        while scope is not None:
+            values = [node.value for node in walk_own(scope.node) if isinstance(node, ast.Assign) and len(node.targets) == 1
+                      and isinstance(node.targets[0], ast.Name) and node.targets[0].id == name]
+            if values:
+                return (values[0], scope) if len(values) == 1 else (None, scope)
+            if _assigned_in(scope, name):
+                return None, scope
+            scope = scope.parent
+        return None, None
+
+    def _table_values(self, func, expr, depth=0):
+        """Value expressions (with the function whose scope they are written in) of a dict display that ``expr`` denotes:
+        a local name, a module-level name, ``self.X`` / ``cls.X`` / ``Class.X`` assigned in the class body or a constructor."""
+        if depth > 3:
+            return None
+        if isinstance(expr, ast.Dict):
+            return [(value, func) for value in expr.values]
+        if isinstance(expr, ast.Call) and dotted(expr.func) == "dict" and not expr.args:
+            return [(keyword.value, func) for keyword in expr.keywords]
+        if isinstance(expr, ast.Name):
+            value, scope = self._single_assignment(func, expr.id)
+            if value is not None:
+                return self._table_values(scope, value, depth + 1)
+            if scope is None:
+                assigned = func.module.assigns.get(expr.id)
+                if assigned and len(assigned) == 1:
+                    holder = _ModuleScope(func.module)
+                    return self._table_values(holder, assigned[0], depth + 1)
+            return None
+        if isinstance(expr, ast.Attribute) and isinstance(expr.value, ast.Name):
+            cls = None
+            if expr.value.id in ("self", "cls"):
+                cls = self.enclosing_class(func) if isinstance(func, FuncInfo) else None
+            else:
+                resolved = self.model.resolve_dotted(func.module, expr.value.id)
+                cls = resolved if isinstance(resolved, ClassInfo) else None
+            if cls is not None:
+                for klass in self.model.mro(cls):
+                    if expr.attr in klass.class_assigns:
+                        return self._table_values(_ModuleScope(klass.module), klass.class_assigns[expr.attr], depth + 1)
+                    init = klass.methods.get("__init__")
+                    if init is not None:
+                        for node in walk_own(init.node):
+                            if isinstance(node, ast.Assign) and any(isinstance(t, ast.Attribute) and t.attr == expr.attr and isinstance(t.value, ast.Name)
+                                                                    and t.value.id == "self" for t in node.targets):
+                                return self._table_values(init, node.value, depth + 1)
+        return None
+
+    def _looked_up_table(self, func, expr):
+        """For ``T[k]`` / ``T.get(k[, default])``: the value expressions of T (plus the default)."""
+        if isinstance(expr, ast.Subscript):
+            return self._table_values(func, expr.value)
+        if isinstance(expr, ast.Call) and isinstance(expr.func, ast.Attribute) and expr.func.attr in ("get", "pop", "setdefault") and expr.args:
+            values = self._table_values(func, expr.func.value)
+            if values is not None and len(expr.args) > 1 and not (isinstance(expr.args[1], ast.Constant) and expr.args[1].value is None):
+                values = values + [(expr.args[1], func)]
+            return values
+        return None
+
+    def _indirect_targets(self, func, call, depth=0):
+        """Targets of a call through a dispatch table (dict of functions / bound methods / lambdas / method names)."""
+        if depth > 2:
+            return None
+        target = call.func
+        lookup = None
+        if isinstance(target, (ast.Subscript, ast.Call)):
+            lookup = target
+        elif isinstance(target, ast.Name):
+            value, scope = self._single_assignment(func, target.id)
+            if value is not None and isinstance(value, (ast.Subscript, ast.Call)):
+                lookup, func_of_lookup = value, scope
+                func = func_of_lookup
+        if lookup is None:
+            return None
+        # getattr(obj, name)(...) with the name taken from a table of texts
+        if isinstance(lookup, ast.Call) and isinstance(lookup.func, ast.Name) and lookup.func.id == "getattr" and len(lookup.args) >= 2:
+            receiver, name_expr = lookup.args[0], lookup.args[1]
+            names = None
+            if isinstance(name_expr, ast.Constant) and isinstance(name_expr.value, str):
+                names = [name_expr.value]
+            else:
+                source = name_expr
+                if isinstance(name_expr, ast.Name):
+                    assigned, scope = self._single_assignment(func, name_expr.id)
+                    source = assigned
+                values = self._looked_up_table(func, source) if source is not None else None
+                if values is not None and all(isinstance(v, ast.Constant) and isinstance(v.value, str) for v, _ in values):
+                    names = [v.value for v, _ in values]
+            if names is None:
+                return None
+            targets = []
+            for name in names:
+                fake = ast.Call(func=ast.Attribute(value=receiver, attr=name, ctx=ast.Load()), args=[], keywords=[])
+                ast.copy_location(fake, call)
+                ast.fix_missing_locations(fake)
+                for resolved in self.resolve_call(func, fake):
+                    if resolved not in targets:
+                        targets.append(resolved)
+            return targets
+        values = self._looked_up_table(func, lookup)
+        if values is None:
+            return None
+        targets = []
+        for value, scope in values:
+            if isinstance(value, ast.Lambda):
+                inner_calls = [node for node in ast.walk(value.body) if isinstance(node, ast.Call)]
+            else:
+                fake = ast.Call(func=value, args=[], keywords=[])
+                ast.copy_location(fake, call)
+                ast.fix_missing_locations(fake)
+                inner_calls = [fake]
+            for inner in inner_calls:
+                holder = scope if isinstance(scope, FuncInfo) else func
+                for resolved in self.resolve_call(holder, inner):
+                    if resolved not in targets:
+                        targets.append(resolved)
+        return targets
+
     def resolve_call(self, func, call):
         """List of targets: FuncInfo | ("ext", dotted name) | ("method", name) for an unresolved method call."""
         model = self.model
         module = func.module
         target = call.func
+        indirect = self._indirect_targets(func, call)
+        if indirect is not None:
+            return indirect
         if isinstance(target, ast.Name):
             name = target.id
             scope = func
@@ -348,6 +473,17 @@ class CallGraph:
 _ASSIGNED_CACHE = {}
 
 
+class _ModuleScope:
+    """Stand-in for a function when an expression is written at module or class level."""
+
+    def __init__(self, module):
+        self.module = module
+        self.parent = None
+        self.cls = None
+        self.qualname = module.name
+        self.node = ast.parse("def _():\n    pass").body[0]
+
+
 def _assigned_in(func, name):
     names = _ASSIGNED_CACHE.get(id(func.node))
     if names is None:
@@ -484,6 +620,26 @@ class EscapeAnalysis:
 
     def _raised_class(self, expr, func):
         if isinstance(expr, ast.Call):
+            # ``raise self._duplicate_error(...)``: a helper that builds the exception - the class is what it returns
+            targets = [t for t in self.graph.resolve_call(func, expr) if isinstance(t, FuncInfo) and t.name != "__init__"]
+            if targets:
+                classes = set()
+                for target in targets:
+                    for node in walk_own(target.node):
+                        if isinstance(node, ast.Return) and node.value is not None:
+                            value = node.value
+                            if isinstance(value, ast.Name):
+                                # result = errors.CheckError(...); return result
+                                for assignment in walk_own(target.node):
+                                    if isinstance(assignment, ast.Assign) and any(isinstance(t, ast.Name) and t.id == value.id for t in assignment.targets):
+                                        classes.add(self._raised_class(assignment.value, target) if isinstance(assignment.value, ast.Call) else ANY)
+                            elif isinstance(value, ast.Call):
+                                classes.add(self._class_name(value.func, target))
+                            else:
+                                classes.add(ANY)
+                if len(classes) == 1:
+                    return classes.pop()
+                return ANY
             return self._class_name(expr.func, func)
         return self._class_name(expr, func)
 
